@@ -40,6 +40,15 @@ def gen_records(r, n, max_fields=10):
     return out
 
 
+def idl_nested(recs):
+    """the same records inside a namespace block and WITHOUT a deriving clause: the operations come from generate.default_deriving"""
+    lines = [PRELUDE, 'namespace geo {']
+    for rc in recs:
+        lines.append('    %s = record { %s }' % (rc['name'], ' '.join('%s: %s;' % f for f in rc['fields'])))
+    lines.append('}')
+    return '\n'.join(lines) + '\n'
+
+
 def idl_of(recs):
     lines = [PRELUDE]
     for rc in recs:
@@ -338,11 +347,16 @@ def make_values(r, rec, n):
 
 def judge_batch(args):
     """generate C++ and Java for one IDL, compile drivers, run, compare with the tuple semantics. Returns list of failures."""
-    recs, names, seed, nvals = args
+    recs, names, seed, nvals = args[:4]
+    nested = len(args) > 4 and args[4]
     r = random.Random(seed)
     opts = {'generate': {'cpp': {'out': 'out/cpp', 'string_serialization': False}, 'java': {'out': 'out/java', 'package': 'com.ex'},
                          'jni': {'out': 'out/jni', 'namespace': 'ex::jni'}}}
-    case = {'files': {'a.djinni': idl_of(recs)}, 'options': opts, 'ops': [['parse', 'a.djinni'], ['generate', 'cpp'], ['generate', 'java']],
+    if nested:
+        # records in a namespace block, operations requested through the configuration only (all records of the batch derive eq and ord)
+        opts['generate']['default_deriving'] = ['eq', 'ord']
+        names = {k: dict(v, cpp='geo::' + v['cpp'], java='com.ex.geo.' + v['java']) for k, v in names.items()}
+    case = {'files': {'a.djinni': idl_nested(recs) if nested else idl_of(recs)}, 'options': opts, 'ops': [['parse', 'a.djinni'], ['generate', 'cpp'], ['generate', 'java']],
             'keep_content': True, 'include_support': True}
     ok, res = run_impl('gen_run', {'cases': [case]}, timeout=300)
     if not ok or any(s['r'] != 'ok' for s in res['results'][0].get('steps', [{'r': 'x'}])):
@@ -441,8 +455,13 @@ def judge(ctx, recs, names, nbatches, per, nvals):
     nonempty = [rc for rc in pool_recs if rc['fields']]
     # records without fields go into a batch of their own: a compile error there must not hide the run-time behaviour of the others
     batches = [[rc for rc in pool_recs if not rc['fields']]] + [nonempty[i:i + per] for i in range(0, len(nonempty), per)][:nbatches]
+    jobs = [(b, names, ctx.seed * 977 + i, nvals) for i, b in enumerate(batches)]
+    # one more batch: records that derive eq and ord, declared inside a namespace block without a deriving clause, under generate.default_deriving
+    both = [rc for rc in nonempty if set(rc['deriving']) == {'eq', 'ord'}][:per]
+    if both:
+        batches.append(both); jobs.append((both, names, ctx.seed * 977 + 991, nvals, True))
     with ThreadPoolExecutor(max_workers=8) as ex:
-        results = list(ex.map(judge_batch, [(b, names, ctx.seed * 977 + i, nvals) for i, b in enumerate(batches)]))
+        results = list(ex.map(judge_batch, jobs))
     pairs = 0
     nrec = 0
     for b, res in zip(batches, results):
